@@ -409,7 +409,7 @@ fn users(ctx: &Arc<Ctx>) {
 		}
 	};
 	let mut kept = 0usize;
-	let cap = ctx.tier.pick(60usize, 600usize);
+	let cap = ctx.tier.pick(60usize, 240usize);
 	for (i, (vt, bytes)) in damaged.iter().enumerate() {
 		if kept >= cap {
 			break;
